@@ -265,13 +265,29 @@ func (h *RealtimeHandler) HandleParticipantJoin(ctx context.Context, handleFrame
 	// The state is read and queued while nothing is relayed in the session: what
 	// the newcomer has been relayed before is not newer than the state.
 	session.Exclusive(func(participants []*models.Participant) {
+		// Only the components of entities that are in the session: for a moment
+		// an entity that is deleted, or goes away with its owner, is already out
+		// of the session while its components are not removed yet, and so is one
+		// for which a component add is being refused.
+		entities := session.Entities()
+		present := make(map[uint32]bool, len(entities))
+		for _, e := range entities {
+			present[e.ID] = true
+		}
+		var entityComponents []*hagallpb.EntityComponent
+		for _, ec := range session.GetEntityComponents().ListAll() {
+			if present[ec.EntityId] {
+				entityComponents = append(entityComponents, ec)
+			}
+		}
+
 		h.FeatureFlags.IfNotSet(featureflag.FlagDisableSessionState, func() {
 			respond.Send(&hagallpb.SessionState{
 				Type:             hagallpb.MsgType_MSG_TYPE_SESSION_STATE,
 				Timestamp:        timestamppb.Now(),
 				Participants:     models.ParticipantsToProtobuf(participants),
-				Entities:         models.EntitiesToProtobuf(session.Entities()),
-				EntityComponents: session.GetEntityComponents().ListAll(),
+				Entities:         models.EntitiesToProtobuf(entities),
+				EntityComponents: entityComponents,
 			})
 		})
 	})
